@@ -92,7 +92,7 @@ def worker(job):
         out['erased'] = sorted(cx.erased)
         out['inlined'] = sorted(cx.inlined)
         out['dropped_auto'] = sorted('%s/%s' % x for x in cx.dropped_auto)
-        fn = prog.funcs[fnkey]
+        fn = prog.funcs[fnkey.split('#')[0]]
         out['pos'] = fn.get('pos')
         out['ssahash'] = fn.get('ssahash')
     except (OutOfSubset, EngineError) as ex:
@@ -105,6 +105,7 @@ def worker(job):
 
 def functions_of(cs, prop):
     fns = [k for k, c in cs.funcs.items() if prop in c.props and not c.assumed and not c.is_iface and not c.inline
+           and not getattr(c, 'has_cases', False)
            and not (_TIER == 'quick' and c.opts.get('tier') == 'thorough')]
     inl = [k for k, c in cs.funcs.items() if c.inline]
     return sorted(fns), sorted(inl)
@@ -189,8 +190,8 @@ def main(argv):
     prog.build_aliases()
     _PROG = prog
     texport = time.time() - t0
-    missing = [f for f in fns if f not in prog.funcs]
-    present = [f for f in fns if f in prog.funcs]
+    missing = [f for f in fns if f.split('#')[0] not in prog.funcs]
+    present = [f for f in fns if f.split('#')[0] in prog.funcs]
     known = [k for k in load_known() if k.get('property') == prop]
     known_by_fn = {}
     for k in known:
